@@ -93,6 +93,28 @@ func (wc *wireCase) await(c *wclient) qres {
 	return qres{}
 }
 
+// checkKilled is evaluated right after a KILL statement naming connection target returned OK.
+// ProcessList.Kill cancels synchronously before the KILL statement produces its result, so at
+// this point - without waiting for anything - the context of the statement running on the
+// target must be cancelled, and the context of every other running statement must not be.
+func (wc *wireCase) checkKilled(rt *rapid.T, q string, target uint32) {
+	for _, i := range wc.live(isBlocked) {
+		c := wc.slots[i]
+		g := wc.w.gates.get(c.gateK)
+		select {
+		case <-g.entered:
+		default:
+			continue // ended without reaching its gate; reported by the normal path
+		}
+		switch got := g.cancelled(); {
+		case c.id == target && !got:
+			rt.Fatalf("%s returned OK but the context of %q, running on connection %d, is not cancelled\n%s", q, c.gateQ, c.id, wc.show())
+		case c.id != target && got:
+			rt.Fatalf("%s cancelled %q running on connection %d, which was not the target\n%s", q, c.gateQ, c.id, wc.show())
+		}
+	}
+}
+
 // checkpoint compares the server's view with the model at a quiescent point.
 func (wc *wireCase) checkpoint(rt *rapid.T) {
 	// barrier on every idle connection: its previous command has completely finished
@@ -276,6 +298,7 @@ func TestC37Wire(t *testing.T) {
 				if r.err != nil {
 					rt.Fatalf("%s failed: %v\n%s", q, r.err, wc.show())
 				}
+				wc.checkKilled(rt, q, target)
 				if victim != nil && isBlocked(victim) {
 					others := len(wc.live(isBlocked)) - 1
 					res := wc.await(victim)
@@ -302,6 +325,7 @@ func TestC37Wire(t *testing.T) {
 				if r.err != nil {
 					rt.Fatalf("%s failed: %v\n%s", q, r.err, wc.show())
 				}
+				wc.checkKilled(rt, q, victim.id)
 				if isBlocked(victim) {
 					res := wc.await(victim)
 					wc.logf("client %d (id %d): statement %q on the killed connection -> rows=%v err=%v", vi, victim.id, victim.gateQ, res.rows, res.err)
